@@ -14,6 +14,7 @@ import (
 	"runtime/debug"
 	"sort"
 	"strings"
+	"sync/atomic"
 	"unsafe"
 )
 
@@ -131,6 +132,9 @@ var S *Sched
 // instrumented code (harness code uses the vrt API directly). Zero after a concurrent scenario means the
 // overlay was not applied and the exploration would be vacuous.
 var ShimOps int64
+
+// CountShim counts one shim operation (atomic: passthrough-mode bodies run on real threads).
+func CountShim() { atomic.AddInt64(&ShimOps, 1) }
 
 // Active reports whether the calling code runs under the scheduler.
 func Active() bool { s := S; return s != nil && s.cur != nil }
